@@ -106,11 +106,14 @@ func (r *Run) matchKnown(sig string) *Finding {
 func (r *Run) IsKnown(sig string) bool { return r.matchKnown(sig) != nil }
 
 // Report records an oracle failure. Returns true if it is a listed known finding.
-func (r *Run) Report(sig, what string, replay interface{}) bool {
+func (r *Run) Report(sig, what string, replay interface{}) bool { return r.ReportN(sig, what, replay, 1) }
+
+// ReportN records n occurrences of the same oracle failure.
+func (r *Run) ReportN(sig, what string, replay interface{}, n int) bool {
 	r.mu.Lock()
 	defer r.mu.Unlock()
 	if f := r.matchKnown(sig); f != nil {
-		r.known[f.Signature]++
+		r.known[f.Signature] += n
 		r.knownWhat[f.Signature] = f.What
 		return true
 	}
